@@ -197,6 +197,7 @@ pub fn pending_wait_results() -> usize {
 }
 
 pub fn insert_job(sh: &mut shell::Shell, gid: i32, pid: i32, cmd: &str, bg: bool) {
+    set_pgid(pid, gid);
     sh.insert_job(gid, pid, cmd, "Running", bg)
 }
 
@@ -222,4 +223,23 @@ pub fn job_table(sh: &shell::Shell) -> Vec<(i32, i32, Vec<i32>, Vec<i32>, String
         .collect();
     v.sort();
     v
+}
+
+thread_local! {
+    static PGID_OF: RefCell<std::collections::HashMap<i32, i32>> = RefCell::new(std::collections::HashMap::new());
+}
+
+pub fn set_pgid(pid: i32, gid: i32) {
+    PGID_OF.with(|m| m.borrow_mut().insert(pid, gid));
+}
+
+/// Stands in for `libc` inside jobc::mark_job_member_{stopped,continued}: getpgid() answers from the
+/// injected process table (the replayed processes do not exist), else asks the kernel.
+pub mod libc_shim {
+    pub unsafe fn getpgid(pid: i32) -> i32 {
+        match super::PGID_OF.with(|m| m.borrow().get(&pid).cloned()) {
+            Some(g) => g,
+            None => ::libc::getpgid(pid),
+        }
+    }
 }
